@@ -49,3 +49,24 @@ Theorem C20_frontends_agree : forall (skv pkv sgv : bytes -> bool) p2s sgn vfy (
   (forall pk sg m, w_verify skv pkv sgv vfy pk sg m = w_verify skv' pkv' sgv' vfy' pk sg m).
 Proof. exact w_frontends_agree. Qed.
 Print Assumptions C20_frontends_agree.
+
+(* decision facts about the executable Ed25519 model of BOTH frontends' verification rules (Model/Ed25519.v, tied to
+   ed25519-zebra and ed25519-dalek through the wrappers on every run): a signature whose S half is not the canonical
+   32-byte encoding of an integer below the group order is never accepted — in particular the malleation S -> S + l of a
+   valid signature, and any signature that is not exactly 64 bytes long; verification never panics. (That changing
+   the message, R or the key is rejected is unforgeability: observed on the implementation, not provable.) *)
+From Strand Require Import Base.ZUtil Model.Ristretto Model.RistrettoFast Model.Ed25519 Proofs.Ed25519P.
+Theorem C20_malleated_and_misformed_signatures_rejected : forall K PM pk msg,
+  (forall Rb S, length Rb = 32%nat -> 0 <= S -> S + ell < 2 ^ 256 ->
+     ed_verify_zebra K PM pk (Rb ++ le_fixed 32 (S + ell)) msg <> Ok true /\
+     ed_verify_dalek K PM pk (Rb ++ le_fixed 32 (S + ell)) msg <> Ok true) /\
+  (forall sig, length sig <> 64%nat -> (32 <= length sig)%nat ->
+     ed_verify_zebra K PM pk sig msg <> Ok true /\ ed_verify_dalek K PM pk sig msg <> Ok true) /\
+  (forall sig, ed_verify_zebra K PM pk sig msg <> Panic /\ ed_verify_dalek K PM pk sig msg <> Panic) /\
+  (forall seed, length (ed_sign K PM seed msg) = 64%nat).
+Proof.
+  intros K PM pk msg. split; [intros Rb S; exact (malleated_signature_rejected K PM pk Rb S msg)|].
+  split; [intros sig; exact (wrong_length_S_rejected K PM pk sig msg)|].
+  split; [intros sig; exact (verify_never_panics K PM pk sig msg)|intros seed; exact (signature_has_64_bytes K PM seed msg)].
+Qed.
+Print Assumptions C20_malleated_and_misformed_signatures_rejected.
